@@ -15,6 +15,7 @@ package main
 
 import (
 	"fmt"
+	"go/constant"
 	"go/token"
 	"go/types"
 	"math"
@@ -814,7 +815,7 @@ func (bf *boundsFn) buildBase() {
 			// the result of a search helper "index of …, or -1": result < len(list)
 			// for the list it searched, as long as nothing wrote it since
 			if g := cc.StaticCallee(); g != nil && bf.p.inTarget(g) && g != bf.fn {
-				if k, fld, ok := bf.indexSummary(g); ok && k < len(cc.Args) {
+				if k, fld, ok := bf.indexSummary(g); ok && k < len(cc.Args) && g.Signature.Results().Len() == 1 {
 					ra, ro := bf.atom(x)
 					eachInstr(bf.fn, func(i2 ssa.Instruction) {
 						ld, ok := i2.(*ssa.UnOp)
@@ -956,11 +957,28 @@ func (bf *boundsFn) inductionFacts(phi *ssa.Phi) {
 }
 
 // edgeConstraints converts the branch outcomes that hold in block b.
-func (bf *boundsFn) edgeConstraints(facts []edgeFact) []constraint {
-	var out []constraint
+func (bf *boundsFn) edgeConstraints(facts []edgeFact) (out []constraint) {
 	add := func(a string, ao int64, b string, bo int64, c int64, why string, deps ...ssa.Value) {
 		out = append(out, constraint{a: a, b: b, c: c - ao + bo, why: why, deps: deps})
 	}
+	neq := map[string][]int64{}
+	defer func() {
+		for atom, vals := range neq {
+			lo := int64(0)
+			for changed := true; changed; {
+				changed = false
+				for _, v := range vals {
+					if v == lo {
+						lo++
+						changed = true
+					}
+				}
+			}
+			if lo >= 2 {
+				out = append(out, constraint{a: "0", b: atom, c: -lo, why: fmt.Sprintf("len differs from 0..%d", lo-1)})
+			}
+		}
+	}()
 	for _, f := range expandFacts(facts) {
 		switch c := f.Cond.(type) {
 		case *ssa.BinOp:
@@ -992,6 +1010,15 @@ func (bf *boundsFn) edgeConstraints(facts []edgeFact) []constraint {
 					if xa == "0" && xo == 0 && strings.HasPrefix(ya, "len:") && yo == 0 {
 						add("0", 1, ya, 0, 0, "len != 0")
 					}
+					// x != c for a length x: remembered; a run 0, 1, …, k-1 of excluded
+					// values gives x >= k (an `if len == 0 … if len == 1 …` ladder or the
+					// default arm of a switch on the length)
+					if ya == "0" && strings.HasPrefix(xa, "len:") {
+						neq[xa] = append(neq[xa], yo-xo)
+					}
+					if xa == "0" && strings.HasPrefix(ya, "len:") {
+						neq[ya] = append(neq[ya], xo-yo)
+					}
 				}
 			} else if isSliceOrString(c.X.Type()) && (c.Op == token.EQL || c.Op == token.NEQ) {
 				eq := (c.Op == token.EQL) == f.Truth
@@ -1010,6 +1037,48 @@ func (bf *boundsFn) edgeConstraints(facts []edgeFact) []constraint {
 						add(la, lo, "0", 0, 0, "slice == nil")
 					}
 				}
+			}
+		case *ssa.Extract:
+			// found == true for `i, found := g(…)` with g an (index, found) search
+			// helper: 0 <= i < len(the list g searched), for loads of that list
+			// made after the call with no write in between
+			call, ok := c.Tuple.(*ssa.Call)
+			if !ok || !f.Truth || c.Index != 1 {
+				break
+			}
+			g := call.Common().StaticCallee()
+			if g == nil || !bf.p.inTarget(g) || g == bf.fn || g.Signature.Results().Len() != 2 {
+				break
+			}
+			k, fld, ok := bf.indexSummary(g)
+			if !ok || k >= len(call.Common().Args) {
+				break
+			}
+			for _, ref := range *call.Referrers() {
+				ex, ok := ref.(*ssa.Extract)
+				if !ok || ex.Index != 0 {
+					continue
+				}
+				ra, ro := bf.atom(ex)
+				add("0", 0, ra, ro, 0, "index returned with found == true by "+funcName(g)+" is >= 0", ex)
+				eachInstr(bf.fn, func(i2 ssa.Instruction) {
+					ld, ok := i2.(*ssa.UnOp)
+					if !ok || ld.Op != token.MUL || !isSliceOrString(ld.Type()) {
+						return
+					}
+					fa, ok := ld.X.(*ssa.FieldAddr)
+					if !ok || fa.X != call.Common().Args[k] {
+						return
+					}
+					if _, f2 := fieldRef(fa.X, fa.Field); f2 != fld {
+						return
+					}
+					if !before(call, ld) || bf.writeBetween(call, ld, ld.X) {
+						return
+					}
+					la, lo := bf.lenAtom(ld)
+					add(ra, ro+1, la, lo, 0, "index returned with found == true by "+funcName(g)+" is below len of the list it searched", ex, ld)
+				})
 			}
 		case *ssa.Call:
 			if sc := c.Common().StaticCallee(); sc != nil && f.Truth {
@@ -1063,6 +1132,58 @@ func defDominates(v ssa.Value, at ssa.Instruction) bool {
 
 // prove: (a+ao) - (b+bo) <= 0 at instruction `at`, given the facts.
 func (bf *boundsFn) prove(a string, ao int64, b string, bo int64, at ssa.Instruction, extra []constraint) bool {
+	if bf.prove1(a, ao, b, bo, at, extra) {
+		return true
+	}
+	return bf.proveJoin(a, ao, b, bo, at, 0)
+}
+
+// proveJoin: when the left-hand side is a merge phi (not a loop-carried one)
+// that dominates the site, the goal holds if it holds for every incoming value
+// at the end of its predecessor, under that edge's own branch outcome (SSA
+// values are immutable, so what held on the edge still holds at the site).
+func (bf *boundsFn) proveJoin(a string, ao int64, b string, bo int64, at ssa.Instruction, depth int) bool {
+	if depth > 2 || !strings.HasPrefix(a, "v:") {
+		return false
+	}
+	var phi *ssa.Phi
+	for _, blk := range bf.fn.Blocks {
+		for _, ins := range blk.Instrs {
+			if p2, ok := ins.(*ssa.Phi); ok && "v:"+p2.Name() == a {
+				phi = p2
+			}
+		}
+	}
+	if phi == nil || !defDominates(phi, at) {
+		return false
+	}
+	// not loop-carried: no incoming value is computed from the phi itself
+	for _, e := range phi.Edges {
+		if ea, _ := bf.atom(e); ea == a {
+			return false
+		}
+	}
+	if l := naturalLoop(phi.Block()); l != nil {
+		return false
+	}
+	// the right-hand side must mean the same on every edge: a value defined
+	// before the merge (or a constant)
+	for i, e := range phi.Edges {
+		pred := phi.Block().Preds[i]
+		last := pred.Instrs[len(pred.Instrs)-1]
+		var ex []constraint
+		if ifi, ok := last.(*ssa.If); ok && pred.Succs[0] != pred.Succs[1] {
+			ex = bf.edgeConstraints([]edgeFact{{Cond: ifi.Cond, Truth: pred.Succs[0] == phi.Block(), From: pred}})
+		}
+		ea, eo := bf.atom(e)
+		if !bf.prove1(ea, eo+ao, b, bo, last, ex) && !bf.proveJoin(ea, eo+ao, b, bo, last, depth+1) {
+			return false
+		}
+	}
+	return true
+}
+
+func (bf *boundsFn) prove1(a string, ao int64, b string, bo int64, at ssa.Instruction, extra []constraint) bool {
 	if a == b {
 		return ao-bo <= 0
 	}
@@ -1357,11 +1478,24 @@ func (bf *boundsFn) indexSummary(g *ssa.Function) (int, string, bool) {
 		indexSummaries[g] = [3]interface{}{k, f, ok}
 		return k, f, ok
 	}
-	if g.Blocks == nil || g.Signature.Results().Len() != 1 || len(g.Blocks) > 20 {
+	nres := 0
+	if g.Signature.Results() != nil {
+		nres = g.Signature.Results().Len()
+	}
+	if g.Blocks == nil || nres < 1 || nres > 2 || len(g.Blocks) > 20 {
 		return res(0, "", false)
 	}
 	if bt, ok := g.Signature.Results().At(0).Type().Underlying().(*types.Basic); !ok || bt.Kind() != types.Int {
 		return res(0, "", false)
+	}
+	// the (index, found) shape: returns whose second result is the constant
+	// false are the not-found returns; the others must carry a proved index
+	// that is also proved non-negative
+	tuple := nres == 2
+	if tuple {
+		if bt, ok := g.Signature.Results().At(1).Type().Underlying().(*types.Basic); !ok || bt.Kind() != types.Bool {
+			return res(0, "", false)
+		}
 	}
 	// candidate lists: loads of a slice field of a parameter
 	type cand struct {
@@ -1416,7 +1550,16 @@ func (bf *boundsFn) indexSummary(g *ssa.Function) (int, string, bool) {
 				continue
 			}
 			n++
-			if cv, ok := constInt(ret.Results[0]); ok {
+			if tuple {
+				if c, ok := ret.Results[1].(*ssa.Const); ok && c.Value != nil && c.Value.Kind() == constant.Bool {
+					if !constant.BoolVal(c.Value) {
+						continue
+					}
+				} else {
+					okAll = false
+					continue
+				}
+			} else if cv, ok := constInt(ret.Results[0]); ok {
 				if cv >= 0 {
 					okAll = false
 				}
@@ -1424,6 +1567,9 @@ func (bf *boundsFn) indexSummary(g *ssa.Function) (int, string, bool) {
 			}
 			nIdx++
 			ia, io := gbf.atom(ret.Results[0])
+			if tuple && !gbf.prove("0", 0, ia, io, ret, nil) {
+				okAll = false
+			}
 			// every load of that field in g that is current at the return
 			proved := false
 			for _, c2 := range cands {
